@@ -22,6 +22,7 @@ innerst = static_library('innerst', files=['is.c'], link_options=['-pthread'])
 outerst = static_library('outerst', files=['os.c'], libs=[innerst])
 fwd = pkg_config('fwd', version='1.0', libs=[outerst], link_options_private=['-Wl,-O1'])
 executable('consumer2', files=['c2.c'], packages=[fwd])
+pkg_config('special', version='1.0', options=['-DA=a#b', '-DB=${x}', '-DC=c d'])
 mine = pkg_config('mine', version='1.0', includes=[inc], libs=[lib], options=['-DGREETING="hi there"'])
 executable('consumer', files=['c.c'], packages=[mine])
 """
@@ -45,6 +46,8 @@ EXPECT = {
     # to the declared private link options
     'fwd': {'installed': ([], ['-L{P}/lib', '-louterst'], '1.0', '', ['-L{P}/lib', '-louterst', '-linnerst', '-pthread', '-Wl,-O1']),
             'uninstalled': ([], ['-L{B}', '-louterst'], '1.0', '', ['-L{B}', '-louterst', '-linnerst', '-pthread', '-Wl,-O1'])},
+    # option values with characters the .pc format itself reads (`#` comment, `${x}` variable reference)
+    'special': {'installed': (['-DA=a#b', '-DB=${{x}}', '-DC=c d'], [], '1.0', ''), 'uninstalled': (['-DA=a#b', '-DB=${{x}}', '-DC=c d'], [], '1.0', '')},
     'mine': {'installed': (['-I{P}/include', '-DGREETING="hi there"'], ['-L{P}/lib/my lib', '-lmylib'], '1.0', ''),
              'uninstalled': (['-I{S}/include dir', '-DGREETING="hi there"'], ['-L{B}/my lib', '-lmylib'], '1.0', '')},
     'proj': {'installed': (['-I{P}/include'], ['-L{P}/lib/my lib', '-L{P}/lib', '-lmylib', '-lstat', '-louterst'], '3.1', ''),
